@@ -8,5 +8,7 @@ INVARIANT InOrder
 INVARIANT LateReplyReported
 INVARIANT NoForeign
 INVARIANT AtMostOnce
+INVARIANT FewSendsAfterCancel
 PROPERTY DelayHonoured
+PROPERTY NoPassAfterCancel
 CHECK_DEADLOCK FALSE
